@@ -21,7 +21,8 @@ DRIVER = "drv_c20"
 RULE = ("projects of 2..9 packages generated on disk by harness/gen/jenkins_projects.py: package DAG grouped into recipes "
         "independently of the dependency order (multiPackages reaching each other through other recipes), variants by "
         "environment / conditional dependencies / tool availability, tool and sandbox providers depending on variants "
-        "of their users, aliases, identical scripts in different recipes (shared variant-ids), names with characters "
+        "of their users, packages providing several tools with different path/libs used together in one job, aliases, "
+        "identical scripts in different recipes (shared variant-ids), names with characters "
         "that fold ('.', '+', upper case, '::') or look like numbering suffixes; per project several root selections "
         "(order permuted, inner paths), prefixes, isolate regexes, description modes, sandbox modes. A case is distinct "
         "by (recipe files, options); non-trivial if at least two package steps share a job name candidate.")
@@ -50,7 +51,7 @@ HERE = os.path.dirname(os.path.abspath(__file__))
 CHILD = os.path.join(os.path.dirname(HERE), "gen", "c20_child.py")
 
 MANDATORY_PROJECTS = 200    # x3 option sets; run regardless of the time budget
-MUST_PASS = ("multi-ok", "sandbox-bootstrap", "tool-two-contexts", "tool-several-users", "propagate-grandparent",
+MUST_PASS = ("multi-tool-provider", "multi-ok", "sandbox-bootstrap", "tool-two-contexts", "tool-several-users", "propagate-grandparent",
              "propagate-merged", "second-parent", "reverse-order", "tool-only", "isolate-multi")
 
 KNOWN_CLASH = ("folded-job-names-collide", "numbered-job-name-collides", "folded-and-numbered-job-names-collide")
@@ -71,6 +72,20 @@ def directed():
             s += "depends:\n" + "".join("    - %s\n" % d for d in deps)
         return s + extra
     out = []
+    # one package provides several tools that differ in path and libs; they are used together by one step (app/build),
+    # by different steps of one package (lib: build = compiler, package = linker) and alone.  A tool is
+    # (providing step, path, libs): a job specification that identifies it by the providing step only gives every
+    # tool the place of the first one ("jobspec-tool-differs").  Always runs first.
+    f = _cfg()
+    f["recipes/toolchain.yaml"] = ('buildScript: "true"\npackageScript: "mkdir -p bin/cc bin/ld lib/cc lib/ld"\n'
+                                   'provideTools:\n    compiler:\n        path: "bin/cc"\n        libs: ["lib/cc"]\n'
+                                   '    linker:\n        path: "bin/ld"\n        libs: ["lib/ld"]\n')
+    f["recipes/app.yaml"] = ('root: True\ndepends:\n    - name: toolchain\n      use: [tools]\n      forward: True\n    - lib\n'
+                             'buildTools: [compiler, linker]\npackageTools: [linker]\n'
+                             'buildScript: "true"\npackageScript: "echo app"\n')
+    f["recipes/lib.yaml"] = ('buildTools: [compiler]\npackageTools: [linker]\n'
+                             'buildScript: "true"\npackageScript: "echo lib"\n')
+    out.append(("multi-tool-provider", f, {"roots": ["app"], "prefix": "", "isolate": None, "short": False, "sandbox": "yes"}))
     # F-C20-1: a.b -> x -> a+b : both fold to a_b
     f = _cfg()
     f["recipes/a.b.yaml"] = rec(['"x"'], True, 'buildScript: "true"\npackageScript: "echo a.b"\n')
@@ -266,12 +281,17 @@ def _gen_batch(ctx, tag, nproj, per_proj, ir_share):
     cases, meta = [], {}
     for i in range(nproj):
         r = ctx.subrng(tag, i)
+        # a stream of its own (the draws from `r` are the ones of the earlier generator): in half of the projects
+        # packages provide several tools with different path / libs, used together in one job
+        r2 = ctx.subrng(tag, i, "multitool")
+        if r2.random() >= 0.5:
+            r2 = None
         toolbox = r.random() < 0.25
         if toolbox:
             # tool / sandbox providers needed in several sandbox contexts
-            proj = G.gen_toolbox_project(r)
+            proj = G.gen_toolbox_project(r, r2)
         else:
-            proj = G.gen_project(r, odd_names=0.12 if r.random() < 0.7 else 0.0)
+            proj = G.gen_project(r, odd_names=0.12 if r.random() < 0.7 else 0.0, r2=r2)
         d = os.path.join(ctx.tmp, tag, "p%d" % i)
         _write_project(d, proj["files"])
         for k in range(per_proj):
